@@ -29,6 +29,7 @@ func (g *FailoverGroup) GetChunk(id ChunkID) (*Chunk, error) {
 	var gErr error
 	for i := 0; i < len(g.stores); i++ {
 		s, active := g.current()
+		verifYield("failover.afterCurrent")
 		b, err := s.GetChunk(id)
 		if err == nil { // return right away on success
 			return b, err
@@ -52,6 +53,7 @@ func (g *FailoverGroup) HasChunk(id ChunkID) (bool, error) {
 	var gErr error
 	for i := 0; i < len(g.stores); i++ {
 		s, active := g.current()
+		verifYield("failover.afterCurrent")
 		hc, err := s.HasChunk(id)
 		if err == nil { // return right away on success
 			return hc, err
